@@ -151,6 +151,12 @@ class World:
                         x.meta["seen"] = True
             return
         md = self.md[i]
+        if k == "scoped":
+            # a temporary reconfiguration inside the documented reset_rules() block: nothing of it may remain
+            with md.reset_rules():
+                md.disable(op[2])
+                md.render(pool[op[3]])
+            return
         if k == "call":
             _, _, meth, di, mode = op
             f = getattr(md, meth)
@@ -316,6 +322,8 @@ def make_ops(tier, pool):
     for i in slots:
         for di in (3, 5, 6):
             ops.append(("edit_tokens", i, di))
+        ops.append(("scoped", i, ["emphasis", "hr"], 1))
+        ops.append(("scoped", i, ["strikethrough", "link", "table"], 4))
     ops.append(("set_from", 1, 0, "set"))
     ops.append(("set_from", 0, 1, "set"))
     ops.append(("set_from", 1, 0, "configure"))
